@@ -1,36 +1,48 @@
 (* C20 — serde_2026 round-trips, is total, and is recognisable.
-   Only statements here; proofs are in Proofs/S2026Proofs.v and Proofs/S2026Probe.v.
+   Only statements here; proofs are in Proofs/S2026Proofs.v (totality), S2026Probe.v (probe =
+   bytes consumed), S2026Emit.v (instruction stream), S2026Bytes.v (byte layer of the round trip),
+   S2026Total.v (serializer totality, composition), S2026Magic.v (back-reference decoders).
 
    Full statement of the property, in the model's terms (t a tree, L a level, s strict/lenient,
    M = max_atom_len, b a byte string):
      (R)  ser_2026 L t = Ok e  ->  de_2026 Atom Cons s M e = Ok (t, [])        (M >= every atom length)
      (N)  ser_2026 L t = Ok e  ->  probe_2026 s M e = Ok |e|
+     (S)  ser_2026 L t returns normally: Ok, or SerializationError exactly when the tree has more
+          than MAX_INDEX distinct atoms or distinct pairs (the serializer's one check)
      (T)  de_2026 .. s M b and probe_2026 s M b return Ok or Err SerializationError: no panic site, the
           fuel of the counted loops always suffices; the only allocation whose size is read from the
           input is bounded by M
      (P)  de_2026 .. s M b = Ok (v, rest)  ->  probe_2026 s M b = Ok (|b| - |rest|)
      (C)  the classic and the back-reference decoders reject magic ++ r.
-   Proved below, for all inputs: (T) C20_decoder_total / C20_probe_total / C20_alloc_bounded,
-   (P) C20_probe_consumed, (C) for the classic decoder C20_magic_classic, and for the back-reference
-   decoders only their first-byte dispatch (C20_magic_backref_dispatch_partial: the byte 0xfd is
-   neither the cons marker nor the back-reference marker and parse_atom, which both decoders share
-   with the classic one, rejects what follows) — the back-reference decoders are not modelled in
-   this tree.
-   Partial results towards (R)/(N): the core of the round trip — the instruction list the
-   serializer emits for the interned tree of t, run through the decoder's instruction semantics
-   over the atom table the serializer writes (in whatever order the sort puts it), leaves exactly
-   [t] on the stack (C20_instructions_roundtrip_partial; C20_instr_step_is_exec ties that semantics
-   to the decoder's byte-level step), and (N) follows from (R) (C20_len_from_roundtrip).
-   NOT proved: the byte layer of (R) — that the decoder reads back the atom table written in length
-   groups and the varint-encoded instruction list (each piece is a C21 varint round trip; the
-   composition is not done), and that the serializer's fuel suffices. The serializer is modelled byte
-   for byte (interning, reference counts, atom sort, grouping, instruction emission) and compared
-   with the implementation; (R)/(N) are decided on the implementation by the check's search;
-   C20_roundtrip_witness shows them on a concrete tree.  Hence level "other".
-   The theorems hold for every value algebra (V, mk_atom, mk_pair) of the decoder. *)
-From Clvm Require Import Model.S2026 Model.Classic Proofs.S2026Proofs Proofs.S2026Probe Proofs.S2026Emit.
+   ALL of it is proved below, for all inputs:
+     (R) C20_roundtrip (strict and lenient: s is universally quantified), and the stronger stream form
+         C20_roundtrip_stream: de_2026 s M (e ++ rest) = Ok (t, rest) for every trailing input;
+     (N) C20_len;   (S) C20_serializer_total;   (R)+(N)+(S) in one statement: C20_serialize_all;
+     (T) C20_decoder_total / C20_probe_total / C20_alloc_bounded;   (P) C20_probe_consumed;
+     (C) C20_magic_classic, C20_magic_backref (both decoders of Model/BackRef.v: the current
+         node_from_stream_backrefs and the legacy node_from_stream_backrefs_old; the pair counters stay
+         0), and C20_magic_backref_probe for serialized_length_from_bytes.
+   Limits under which (R)/(N)/(S) are stated, and why they are the format's own:
+     * every atom is a string of bytes (wf_sexp: each element < 256 — a well-formedness condition of
+       the model's byte type, always true of a Rust u8) shorter than 2^55: lengths are written as
+       56-bit varints and write_varint panics beyond that range ("Value too large to encode"; the
+       serializer does not check it — an atom of 2^55 bytes cannot exist: the allocator's heap is
+       limited to u32::MAX bytes). Within that limit the serializer is proved panic-free and its
+       emit fuel 3*|pairs|+2 is proved sufficient, so OutOfFuel / Panic never occur (S);
+     * at most MAX_INDEX = 2^31-1 distinct atoms and distinct pairs: that is the check the
+       serializer performs (SerializationError otherwise) and (S) shows it is the only failure;
+       group counts, atom indices, pair back-references and the instruction count (<= 3*|pairs|+1)
+       then all lie inside the varint range;
+     * (R): max_atom_len M >= every atom length (the decoder rejects longer atoms by design);
+     * (N), (P): |blob| < 2^64 (a Rust slice length is a usize).
+   C20_instructions_roundtrip_partial / C20_instr_step_is_exec / C20_len_from_roundtrip are the
+   intermediate results of the earlier rounds, kept (they are used by the proofs).
+   The decoder theorems (T), (P) hold for every value algebra (V, mk_atom, mk_pair); (R) is
+   stated for V = sexp. *)
+From Clvm Require Import Model.S2026 Model.Classic Model.BackRef Proofs.S2026Proofs Proofs.S2026Probe Proofs.S2026Emit
+  Proofs.S2026Bytes Proofs.S2026Total Proofs.S2026Magic.
 From Coq Require Import Lia.
-Local Open Scope Z_scope.
+Open Scope Z_scope.
 
 (* (T) the decoder: on every byte string and for every max_atom_len, strict or lenient, the outcome
    is Ok (and then at least one byte was consumed) or SerializationError — in particular never
@@ -72,14 +84,69 @@ Qed.
 Theorem C20_magic_classic : forall r, node_from_stream (magic ++ r) = Err SerializationError.
 Proof. exact classic_rejects_magic. Qed.
 
-Theorem C20_magic_backref_dispatch_partial : forall r,
-  match magic ++ r with
-  | b :: rest => b <> 0xff%N /\ b <> 0xfe%N /\ parse_atom_node b rest = Err SerializationError
-  | [] => False
-  end.
-Proof. exact parse_atom_rejects_magic. Qed.
+(* (C) both back-reference decoders: outcome = (pair count afterwards, result) *)
+Theorem C20_magic_backref : forall r,
+  node_from_stream_backrefs (magic ++ r) = (0%N, Err SerializationError) /\
+  node_from_stream_backrefs_old (magic ++ r) = (0%N, Err SerializationError).
+Proof. intros r. exact (conj (backrefs_reject_magic r) (backrefs_old_reject_magic r)). Qed.
 
-(* towards (R): instructions emitted for the interned tree of t rebuild t *)
+(* ... and the back-reference length probe and the back-reference grammar itself *)
+Theorem C20_magic_backref_probe : forall r,
+  serialized_length_from_bytes (magic ++ r) = Err SerializationError /\
+  de_br_spec (magic ++ r) = Err SerializationError.
+Proof. intros r. exact (conj (br_probe_rejects_magic r) (br_spec_rejects_magic r)). Qed.
+
+(* (R) the round trip, strict and lenient *)
+Theorem C20_roundtrip : forall (level : N) (t : sexp) (e : bytes) (strict : bool) (max_atom_len : Z),
+  wf_sexp t = true -> (forall a, In a (atoms_of t) -> Z.of_nat (length a) <= max_atom_len) ->
+  ser_2026 level t = Ok e ->
+  de_2026 Atom Cons strict max_atom_len e = Ok (t, []).
+Proof. exact ser_de_roundtrip_exact. Qed.
+
+(* (R) as a stream: whatever follows the blob is left unread; the blob is a byte string *)
+Theorem C20_roundtrip_stream : forall (level : N) (t : sexp) (e : bytes) (strict : bool) (max_atom_len : Z) (rest : bytes),
+  wf_sexp t = true -> wf_bytes rest = true ->
+  (forall a, In a (atoms_of t) -> Z.of_nat (length a) <= max_atom_len) ->
+  ser_2026 level t = Ok e ->
+  wf_bytes e = true /\ de_2026 Atom Cons strict max_atom_len (e ++ rest) = Ok (t, rest).
+Proof. exact ser_de_roundtrip. Qed.
+
+(* (N) the length probe on serializer output *)
+Theorem C20_len : forall (level : N) (t : sexp) (e : bytes) (strict : bool) (max_atom_len : Z),
+  wf_sexp t = true -> (forall a, In a (atoms_of t) -> Z.of_nat (length a) <= max_atom_len) ->
+  ser_2026 level t = Ok e -> Z.of_nat (length e) < 2 ^ 64 ->
+  probe_2026 strict max_atom_len e = Ok (Z.of_nat (length e)).
+Proof. exact ser_probe_len. Qed.
+
+(* (S) the serializer returns normally on every tree whose atoms fit the varint range: never a
+   panic site, never OutOfFuel; it fails exactly on its MAX_INDEX check *)
+Theorem C20_serializer_total : forall (level : N) (t : sexp),
+  wf_sexp t = true -> (forall a, In a (atoms_of t) -> Z.of_nat (length a) < 2 ^ 55) ->
+  match ser_2026 level t with
+  | Ok _ => Z.of_nat (length (it_atoms (intern_tree t))) <= max_index /\
+            Z.of_nat (length (it_pairs (intern_tree t))) <= max_index
+  | Err e => e = SerializationError /\
+             (max_index < Z.of_nat (length (it_atoms (intern_tree t))) \/
+              max_index < Z.of_nat (length (it_pairs (intern_tree t))))
+  end.
+Proof. intros level t Hwf Hlen. exact (ser_2026_total level t (conj Hwf Hlen)). Qed.
+
+(* (R) + (N) + (S) in one statement, for every tree, level and max_atom_len *)
+Theorem C20_serialize_all : forall (level : N) (t : sexp) (max_atom_len : Z),
+  wf_sexp t = true -> (forall a, In a (atoms_of t) -> Z.of_nat (length a) < 2 ^ 55) ->
+  (forall a, In a (atoms_of t) -> Z.of_nat (length a) <= max_atom_len) ->
+  match ser_2026 level t with
+  | Ok e => wf_bytes e = true /\
+            (forall strict, de_2026 Atom Cons strict max_atom_len e = Ok (t, [])) /\
+            (Z.of_nat (length e) < 2 ^ 64 ->
+             forall strict, probe_2026 strict max_atom_len e = Ok (Z.of_nat (length e)))
+  | Err er => er = SerializationError /\
+              (max_index < Z.of_nat (length (it_atoms (intern_tree t))) \/
+               max_index < Z.of_nat (length (it_pairs (intern_tree t))))
+  end.
+Proof. intros level t m Hwf Hlen Hm. exact (ser_2026_all level t m (conj Hwf Hlen) Hm). Qed.
+
+(* intermediate result for (R): instructions emitted for the interned tree of t rebuild t *)
 Theorem C20_instructions_roundtrip_partial : forall t table instrs,
   lookup_atoms (it_atoms (intern_tree t)) (sorted_no_nil (intern_tree t)) = Ok table ->
   emit_instructions (intern_tree t) (sorted_no_nil (intern_tree t)) = Ok instrs ->
@@ -114,6 +181,20 @@ Example C20_roundtrip_witness :
     probe_2026 true 2 e = Ok 20 /\ probe_2026 false 2 (e ++ [7%N]) = Ok 20.
 Proof. exists (magic ++ [2; 1; 1; 2; 98; 98; 7; 2; 3; 1; 126; 0; 1; 1])%N. vm_compute. repeat split; reflexivity. Qed.
 
+(* the hypotheses of C20_roundtrip / C20_serializer_total / C20_serialize_all hold of that tree
+   (max_atom_len = 2), and the serializer succeeds on it *)
+Example C20_hypotheses_witness :
+  let ab := Cons (Atom [1%N]) (Atom [98%N; 98%N]) in
+  let t := Cons ab (Cons ab (Atom [])) in
+  wf_sexp t = true /\ (forall a, In a (atoms_of t) -> Z.of_nat (length a) < 2 ^ 55) /\
+  (forall a, In a (atoms_of t) -> Z.of_nat (length a) <= 2) /\ (exists e, ser_2026 7 t = Ok e).
+Proof.
+  cbv zeta. split; [reflexivity|]. split; [|split].
+  - intros a Ha. cbn in Ha. repeat (destruct Ha as [<-|Ha]; [vm_compute; reflexivity|]). destruct Ha.
+  - intros a Ha. cbn in Ha. repeat (destruct Ha as [<-|Ha]; [vm_compute; discriminate|]). destruct Ha.
+  - eexists. vm_compute. reflexivity.
+Qed.
+
 Example C20_lenient_witness :
   de_2026 Atom Cons false 5 (magic ++ [128; 0; 1; 0])%N = Ok (Atom [], []) /\
   de_2026 Atom Cons true 5 (magic ++ [128; 0; 1; 0])%N = Err SerializationError /\
@@ -125,9 +206,16 @@ Print Assumptions C20_probe_total.
 Print Assumptions C20_alloc_bounded.
 Print Assumptions C20_probe_consumed.
 Print Assumptions C20_magic_classic.
-Print Assumptions C20_magic_backref_dispatch_partial.
+Print Assumptions C20_magic_backref.
+Print Assumptions C20_magic_backref_probe.
+Print Assumptions C20_roundtrip.
+Print Assumptions C20_roundtrip_stream.
+Print Assumptions C20_len.
+Print Assumptions C20_serializer_total.
+Print Assumptions C20_serialize_all.
 Print Assumptions C20_instructions_roundtrip_partial.
 Print Assumptions C20_instr_step_is_exec.
 Print Assumptions C20_len_from_roundtrip.
 Print Assumptions C20_roundtrip_witness.
+Print Assumptions C20_hypotheses_witness.
 Print Assumptions C20_lenient_witness.
